@@ -151,6 +151,11 @@ def check_r4(ctx, db, config, A):
     # ---- R7 grow / shrink / deallocate keep every live block inside an iterated slice also when they fail half-way: C12
     from . import c12
     c12.run(runner.Sub(ctx, 'R7', 'C12', only={'O2', 'R4'}), config)     # the finger obligations only
+    # ---- R8 the collections release exactly what they hold: a RawVec whose recorded capacity can exceed its allocation (a store
+    # made before the reservation is known to have succeeded) later releases more than its block and the finger jumps over
+    # older live blocks, which then appear in no slice (client contract shared with C01.R10)
+    from . import clients
+    clients.check(ctx, config, 'R8')
 
 
 def bump_exact(I, P0, x, facts, old, L):
